@@ -208,7 +208,7 @@ func gen(r *hv.Rng, i int, tier string) (string, hv.Val) {
 			suites[i], suites[j] = suites[j], suites[i]
 		}
 	}
-	comp := [][]byte{{0}, {0}, {0}, {0}, {0}, {0}, {1, 0}, {1}, {}}[r.Intn(9)]
+	comp := [][]byte{{0}, {0}, {0}, {0}, {0}, {0}, {0}, {0}, {0}, {0}, {0}, {1, 0}, {1}, {}}[r.Intn(14)]
 	hcurves := [][]int{{}, {23}, {23}, {29, 23}, {29}, {24, 25}, {23, 24, 25}}[r.Intn(7)]
 	points := [][]byte{{}, {0}, {0}, {0}, {1}, {1, 0}}[r.Intn(6)]
 	var alpn []string
